@@ -252,17 +252,18 @@ func execOp(p *dvh.Proc, o wop) (alive bool) {
 		_, _, a := p.HTTP("DELETE", "/api/node/"+v.vuuid[o.V]+"/"+o.Name+"/key/"+o.Key, nil)
 		return a
 	case "deldata":
-		m0, _, _ := p.Writes()
+		m0, d0, _ := p.Writes()
 		if _, a := p.Call("deldata", v.root[o.Repo], o.Name); !a {
 			return false
 		}
-		// the instance leaves the repo in a background goroutine: wait for its save
+		// the instance leaves the repo in a background goroutine: wait for its save AND for the
+		// deletion of its key-values (one DeleteAll), in whichever order the code does them
 		for i := 0; i < 400; i++ {
-			m, _, _ := p.Writes()
+			m, d, _ := p.Writes()
 			if p.Dead {
 				return false
 			}
-			if m > m0 {
+			if m > m0 && d > d0 {
 				break
 			}
 			time.Sleep(5 * time.Millisecond)
